@@ -414,6 +414,9 @@ func (ega *EnhancedGroupAggregator) AddPostAggregationExpression(outputField, or
 
 	// Add individual aggregation fields to the base aggregator (only if not already exists)
 	for _, field := range requiredFields {
+		// The expression evaluator registered below closes over field; give every iteration
+		// its own copy (the module is built with go 1.18 loop-variable semantics).
+		field := field
 
 		// For parameterized functions, always recreate the aggregator with correct parameters
 		// even if it already exists (it was created with default parameters)
